@@ -60,6 +60,12 @@ func (f *verifFullStack) invoke() *verifOutcome {
 // verifFullScenario runs nInv sequential invocations; behaviours[i] is what the runtime does on
 // the i-th dispatched invocation (each faulty one ends its process generation).
 func verifFullScenario(nExt int, subs []string, behaviours []int) {
+	verifFullScenarioX(nExt, subs, behaviours, false)
+}
+
+// raceTimers: the function-timeout timer may fire at any scheduling point (not only at
+// quiescence), so every invocation may also end with the timeout outcome.
+func verifFullScenarioX(nExt int, subs []string, behaviours []int, raceTimers bool) {
 	// plan per started runtime process: a faulty behaviour ends the generation
 	var plan [][]int
 	cur := []int{}
@@ -74,14 +80,30 @@ func verifFullScenario(nExt int, subs []string, behaviours []int) {
 	f := newVerifFull(nExt, subs, plan, 3000)
 	w := f.w
 	execsBefore := 0
+	if raceTimers {
+		// let the initialisation finish first (expiry during init is the subject of
+		// VerifFullExpiryDuringInit); from now on the function-timeout timer may fire at any
+		// point of an invocation
+		verifSettle()
+		verifRaceTimers(true)
+	}
 	for i, b := range behaviours {
 		delivered := len(w.RuntimeBodies())
 		startSeq := w.Seq()
 		o := f.invoke()
 		// the event reached the runtime byte for byte
+		if raceTimers && o.err == ErrInvokeTimeout && len(w.RuntimeBodies()) == delivered {
+			verifReach("expiry-before-dispatch")
+			continue
+		}
 		verifAssert(len(w.RuntimeBodies()) == delivered+1, "each invocation is handed to the runtime exactly once")
 		verifAssert(w.RuntimeBodies()[delivered] == string(o.ev), "the event is handed to the runtime byte for byte")
 		resp := w.RuntimeResponses()[delivered]
+		if raceTimers && o.err == ErrInvokeTimeout {
+			// expiry won the race: the timeout outcome, and the environment is reset
+			verifReach("expiry-won")
+			continue
+		}
 		switch b {
 		case rapid.VbRespond:
 			verifReach("respond")
@@ -96,6 +118,16 @@ func verifFullScenario(nExt int, subs []string, behaviours []int) {
 			verifAssert(o.err == nil && o.wr.writes == 1 && string(o.wr.body) == resp, "a stale-id submission changes nothing for the caller")
 			st := w.Statuses()
 			verifAssert(len(st) >= 2 && st[len(st)-2] == "400" && st[len(st)-1] == "202", "stale id is refused with 400, the in-flight id is then accepted")
+		case rapid.VbCaseVariantThenOK:
+			verifReach("case-variant")
+			verifAssert(o.err == nil && o.wr.writes == 1 && string(o.wr.body) == resp, "a submission for a case variant of the id changes nothing for the caller")
+			st := w.Statuses()
+			verifAssert(len(st) >= 2 && st[len(st)-2] == "400" && st[len(st)-1] == "202", "a case variant of the id is refused with 400 and the genuine submission is then accepted")
+		case rapid.VbIllegalThenOK:
+			verifReach("illegal")
+			verifAssert(o.err == nil && o.wr.writes == 1 && string(o.wr.body) == resp, "illegal calls change nothing for the caller")
+			st := w.Statuses()
+			verifAssert(len(st) >= 3 && st[len(st)-3] == "403" && st[len(st)-2] == "400" && st[len(st)-1] == "202", "init/error after next is 403, an error for a stale id is 400, the legal response is then accepted")
 		case rapid.VbDoubleRespond:
 			verifReach("double")
 			verifAssert(o.err == nil && o.wr.writes == 1 && string(o.wr.body) == resp, "a duplicate submission changes nothing for the caller")
@@ -146,6 +178,7 @@ func verifFullScenario(nExt int, subs []string, behaviours []int) {
 func VerifFullHealthy2()      { verifFullScenario(0, nil, []int{rapid.VbRespond, rapid.VbRespond}) }
 func VerifFullHealthy2Ext()   { verifFullScenario(1, []string{"IS"}, []int{rapid.VbRespond, rapid.VbError}) }
 func VerifFullStale()         { verifFullScenario(0, nil, []int{rapid.VbStaleThenOK, rapid.VbDoubleRespond, rapid.VbRespond}) }
+func VerifFullIllegal()       { verifFullScenario(0, nil, []int{rapid.VbCaseVariantThenOK, rapid.VbIllegalThenOK, rapid.VbRespond}) }
 func VerifFullTimeoutThenOK() { verifFullScenario(0, nil, []int{rapid.VbStall, rapid.VbRespond}) }
 func VerifFullExitThenOK()    { verifFullScenario(0, nil, []int{rapid.VbExit, rapid.VbRespond}) }
 func VerifFullRespondExit()   { verifFullScenario(0, nil, []int{rapid.VbRespondExit, rapid.VbRespond}) }
@@ -169,3 +202,96 @@ func VerifFullAny3()    { verifFullChoice(0, nil, 3) }
 func VerifFullExitThenStall()    { verifFullScenario(0, nil, []int{rapid.VbExit, rapid.VbStall}) }
 func VerifFullStallThenStall()   { verifFullScenario(0, nil, []int{rapid.VbStall, rapid.VbStall}) }
 func VerifFullRespExitThenStall() { verifFullScenario(0, nil, []int{rapid.VbRespondExit, rapid.VbStall}) }
+
+// C05 "response versus expiry": the timeout timer may fire at any point of a healthy invocation.
+func VerifFullRace2()    { verifFullScenarioX(0, nil, []int{rapid.VbRespond, rapid.VbRespond}, true) }
+func VerifFullRace2Ext() { verifFullScenarioX(1, []string{"I"}, []int{rapid.VbRespond, rapid.VbRespond}, true) }
+
+// C10 on the FULL stack: a second caller arrives at any point of an invocation that
+// stalls, times out and is reset. It is refused (ErrAlreadyReserved) or, if it arrives after the
+// reset released the reservation, served by the fresh environment; it never disturbs the
+// first caller's outcome, and a following sequential invocation is served normally.
+func VerifFullTwoCallersTimeout() {
+	f := newVerifFull(0, nil, [][]int{{rapid.VbStall}, {rapid.VbRespond, rapid.VbRespond}, {rapid.VbRespond}}, 3000)
+	w := f.w
+	// at most one invocation in flight: while the sandbox is being reset, the reservation (if any)
+	// is still the one that was in flight when the reset began -- nobody new is admitted
+	idAtReset, inReset := "", false
+	verifInvariant("no caller is admitted while a reset is in progress", func() bool {
+		cur := ""
+		if f.s.invokeCtx != nil {
+			cur = f.s.invokeCtx.Token.InvokeID
+		}
+		if w.ShuttingDown() {
+			if !inReset {
+				inReset, idAtReset = true, cur
+			}
+			return cur == "" || cur == idAtReset
+		}
+		inReset = false
+		return true
+	})
+	outs := make([]*verifOutcome, 2)
+	verifSpawn(func() { outs[0] = f.invoke() })
+	// the second caller arrives in a chosen phase of the first invocation
+	phase := verifChoice(5, "arrival phase of the second caller")
+	verifSpawnEnv(func() {
+		switch phase {
+		case 0: // at once (during init / before dispatch)
+		case 1: // while the runtime works on the first invocation
+			verifWaitUntil(func() bool { return w.Count("", "got-invoke", "") > 0 })
+		case 2: // when the timeout reset has begun
+			verifWaitUntil(func() bool { return w.ShuttingDown() })
+		case 3: // when the old runtime has been killed
+			verifWaitUntil(func() bool { return w.Count("supervisor", "exited", "runtime-1") > 0 })
+		case 4: // after the first caller got its answer
+			verifWaitUntil(func() bool { return outs[0] != nil })
+		}
+		outs[1] = f.invoke()
+	})
+	verifWaitAll()
+	verifSettle()
+	if outs[1] == nil {
+		return // the chosen phase never occurred on this path (or the second caller is still in flight)
+	}
+	timeouts, served, refused := 0, 0, 0
+	for k := 0; k < 2; k++ {
+		o := outs[k]
+		verifAssert(o != nil, "both callers return")
+		switch o.err {
+		case ErrInvokeTimeout:
+			timeouts++
+			verifAssert(o.wr.writes == 0, "the timed-out caller receives no runtime body")
+		case ErrAlreadyReserved:
+			refused++
+			verifReach("refused")
+			verifAssert(o.wr.writes == 0, "a refused caller receives nothing")
+		case nil:
+			served++
+			verifReach("served-after-reset")
+			verifAssert(o.wr.writes == 1, "a served caller receives exactly one body")
+		default:
+			verifAssert(false, "a second caller ends with refusal, timeout or success; got: "+o.err.Error())
+		}
+	}
+	verifAssert(timeouts == 1, "exactly the caller whose runtime stalled gets the timeout outcome")
+	// whoever was served got the response of a runtime started after the stalled generation was gone
+	if served == 1 {
+		gone := w.First("supervisor", "exited", "runtime-1")
+		started := w.First("supervisor", "exec", "runtime-3|/var/runtime/bootstrap")
+		verifAssert(gone > 0 && started > gone, "a caller admitted after the reset is served by freshly started processes")
+		rs := w.RuntimeResponses()
+		ok := false
+		for k := 0; k < 2; k++ {
+			if outs[k].err == nil && len(rs) >= 2 && string(outs[k].wr.body) == rs[1] {
+				ok = true
+			}
+		}
+		verifAssert(ok, "the served caller receives the response posted for its own invocation")
+	}
+	// the environment keeps serving
+	o := f.invoke()
+	verifAssert(o.err == nil && o.wr.writes == 1, "the next sequential invocation is served normally")
+	rs := w.RuntimeResponses()
+	verifAssert(string(o.wr.body) == rs[len(rs)-1], "the next sequential invocation receives its own response")
+}
